@@ -34,6 +34,8 @@ type Ctx struct {
 	Evals  int // SSA instructions / AST nodes / paths examined by the rules
 	Notes  []string
 	Assume []string
+	// OverlayFiles maps absolute file names to replacement files (control mode only).
+	OverlayFiles map[string]string
 	floors map[string]int
 	counts map[string]int
 }
